@@ -1009,6 +1009,89 @@ class MemDel(Unit):
             ex.oblige(s, 'exit: dropping the hosted MemoryBlock runs its release finalizer', z3.BoolVal(k in ('normal', 'return') and [e_[0] for e_ in s.ghost['ev']] == ['release']))
 
 
+class MemProxyReduce(Unit):
+    """MemoryBlockProxy.__reduce__: the pickle is BaseProxy.__reduce__'s own -- taken exactly once (one incref for the pickle in transit: unit BaseProxy.__reduce__) --
+    with nothing changed but two entries, name and size, added to its keyword dict (in particular the rebuild's incref is not switched off)."""
+    prop = 'C13'
+    file = F
+    qual = 'MemoryBlockProxy.__reduce__'
+    canaries = (('pickles a second time (two increfs for one pickle)', '            func, args = super().__reduce__()', '            super().__reduce__()\n            func, args = super().__reduce__()', ''),
+                ('rebuild told not to take its own reference', "            kwds['size'] = self._size", "            kwds['size'] = self._size\n            kwds['incref'] = False", ''))
+
+    def setup(self, ex):
+        from pyvc.core import DictVal
+        st = St()
+        st.ghost['ev'] = ()
+        self.name_, self.size = z3.Const('cached_name', Val), z3.Const('cached_size', Val)
+        st.env['self'] = Rec(ex, 'self', immutable=True).init(st, _name=self.name_, _size=self.size)
+        self.func = z3.Const('RebuildProxy', Val)
+        self.a0, self.a1, self.a2 = z3.Consts('proxy_class token serializer', Val)
+        return st
+
+    def on_call(self, ex, st, e, src):
+        if src == 'super().__reduce__':
+            from pyvc.core import DictVal
+
+            def f(s, ak):
+                s = s.fork()
+                ev(s, 'reduce')
+                d = DictVal()
+                d.items = {}
+                self.kwds = d
+                return [('ok', s, PyTuple([self.func, PyTuple([self.a0, self.a1, self.a2, d])]))]
+            return ex.bind(ex.evargs(e, st), f)
+        return None
+
+    def post(self, ex, outs):
+        from pyvc.core import DictVal
+        for k, s, p in outs:
+            n = len([e_ for e_ in s.ghost['ev'] if e_[0] == 'reduce'])
+            p = unbox_handle(ex, p)
+            if k not in ('normal', 'return') or n != 1 or not (isinstance(p, PyTuple) and len(p.items) == 2 and isinstance(unbox_handle(ex, p.items[1]), PyTuple) and len(unbox_handle(ex, p.items[1]).items) == 4):
+                ex.oblige(s, 'exit: returns the (func, args) of exactly one super().__reduce__()', False)
+                continue
+            inner = unbox_handle(ex, p.items[1]).items
+            kw = unbox_handle(ex, inner[3])
+            ok = isinstance(kw, DictVal) and set(kw.items) == {'name', 'size'} and kw.pack is None
+            ex.oblige(s, 'exit: one super().__reduce__() (one reference for the pickle in transit); its function, proxy class, token and serializer are passed on untouched; kwds gains exactly name and size (the cached values)',
+                      z3.And(box(ex, p.items[0]) == self.func, box(ex, inner[0]) == self.a0, box(ex, inner[1]) == self.a1, box(ex, inner[2]) == self.a2,
+                             box(ex, kw.items['name']) == self.name_, box(ex, kw.items['size']) == self.size) if ok else z3.BoolVal(False))
+
+
+class MemProxyInit(Unit):
+    """MemoryBlockProxy.__init__: everything but name/size goes to BaseProxy.__init__ exactly once (which takes this proxy's reference: unit BaseProxy.__init__)."""
+    prop = 'C13'
+    file = F
+    qual = 'MemoryBlockProxy.__init__'
+    canaries = (('base constructor skipped (proxy holds no reference)', '            super().__init__(*args, **kwargs)', '            pass', ''),)
+
+    def setup(self, ex):
+        from pyvc.core import StarPack
+        st = St()
+        st.ghost['ev'] = ()
+        self.me = Rec(ex, 'self')
+        self.args, self.kw = StarPack(z3.Const('args', Val)), KwPack(z3.Const('kwargs', Val))
+        self.name_, self.size = z3.Const('name', Val), z3.Const('size', Val)
+        st.env.update(self=self.me, args=self.args, kwargs=self.kw, name=self.name_, size=self.size)
+        return st
+
+    def on_call(self, ex, st, e, src):
+        if src == 'super().__init__':
+            def f(s, ak):
+                s = s.fork()
+                ev(s, 'init', tuple(ak[0]), dict(ak[1]))
+                return [('ok', s, NONE)]
+            return ex.bind(ex.evargs(e, st), f)
+        return None
+
+    def post(self, ex, outs):
+        for k, s, p in outs:
+            inits = [e_ for e_ in s.ghost['ev'] if e_[0] == 'init']
+            ok = k in ('normal', 'return') and len(inits) == 1 and len(inits[0][1]) == 1 and inits[0][1][0] is self.args and set(inits[0][2]) == {'**'} and inits[0][2]['**'] is self.kw
+            ex.oblige(s, 'exit: BaseProxy.__init__(*args, **kwargs) exactly once with the caller\'s arguments; name and size are cached as given, no memory is attached yet',
+                      z3.And(box(ex, self.me.get(s, '_name')) == self.name_, box(ex, self.me.get(s, '_size')) == self.size, box(ex, self.me.get(s, '_mem')) == NONE) if ok else z3.BoolVal(False))
+
+
 class C13Lemma(LemmaUnit):
     prop = 'C13'
     qual = 'lemma(C13)'
@@ -1028,7 +1111,7 @@ class C13Lemma(LemmaUnit):
 
 
 UNITS = [ServerCreate, ServerCreateInterference, ServerCreateBadArgs, ServerCreateTyped, ServerCreateCallable, MakeProxy, MakeProxyAuto, MakeProxyMemory, ServerIncref, ServerDecref, ProxyInit, ProxyIncref, ProxyIncrefInServer, ProxyIncrefAfterFork, ProxyDispatch,
-         ProxyDecref, ProxyDecrefInServer, ProxyReduce, ProxyReduceInServer, Rebuild, RebuildInServer, Managed, ManagedOutside, MemRelease, MemInit, MemDel, C13Lemma]
+         ProxyDecref, ProxyDecrefInServer, ProxyReduce, ProxyReduceInServer, Rebuild, RebuildInServer, Managed, ManagedOutside, MemRelease, MemInit, MemDel, MemProxyReduce, MemProxyInit, C13Lemma]
 SCENARIOS = [('Server.', 'replay/scenarios/c13_rewrap_vs_last_decref.py'), ('', 'replay/scenarios/c13_refcount_histories.py', [1, 2, 3, 4, 5, 6])]
 BOUNDED = [{'function': 'whole histories across processes (create/pickle/unpickle/child/store/remove/managed/delete)', 'method': 'runtime scenario replay/scenarios/c13_refcount_histories.py against a reference-count model', 'bound': '6 seeds x 45 steps (thorough tier and fallback)', 'counted_as_proved': False}]
 THOROUGH_SCENARIOS = [('', 'replay/scenarios/c13_refcount_histories.py', list(range(7, 31)), 600)]
